@@ -366,7 +366,7 @@ fn gen_zero(r: &mut Rng) -> Decimal {
 
 /// a dataset with a given flavour
 fn gen_dataset(r: &mut Rng, len: usize) -> (Vec<Decimal>, &'static str) {
-    let flavour = r.below(8);
+    let flavour = r.below(13);
     let mut v = Vec::with_capacity(len);
     match flavour {
         0 | 1 => {
@@ -419,13 +419,68 @@ fn gen_dataset(r: &mut Rng, len: usize) -> (Vec<Decimal>, &'static str) {
             }
             (v, "flavour_negative")
         }
-        _ => {
+        7 => {
             // tiny values only
             for _ in 0..len {
                 let d = Decimal::new(r.range(1, 999), 8);
                 v.push(if r.chance(1, 2) { -d } else { d });
             }
             (v, "flavour_tiny")
+        }
+        8 | 9 => {
+            // small values around a centre; whenever the running mean of what was fed so far is
+            // an exact decimal, the next value lands EXACTLY on it with probability 1/2 (the
+            // recurrence M stays, the count grows: variance must still be recomputed)
+            let scale = r.below(3) as u32;
+            let centre = r.range(-30, 30);
+            let mut sum = Decimal::ZERO;
+            for i in 0..len {
+                let n = Decimal::new(i as i64, 0);
+                let on_mean = if i >= 2 && r.chance(1, 2) {
+                    sum.checked_div(n).filter(|m| *m * n == sum && m.scale() <= 8)
+                } else {
+                    None
+                };
+                let x = match on_mean {
+                    Some(m) => m,
+                    None => {
+                        if i % 2 == 1 && r.chance(1, 2) {
+                            // mirror the previous value around the centre: the mean is the centre
+                            Decimal::new(2 * centre, scale) - v[i - 1]
+                        } else {
+                            Decimal::new(centre + r.range(-6, 6), scale)
+                        }
+                    }
+                };
+                sum += x;
+                v.push(x);
+            }
+            (v, "flavour_on_running_mean")
+        }
+        10 => {
+            // all equal (zero included, in several representations)
+            let x = if r.chance(1, 3) { gen_zero(r) } else { gen_wide(r) };
+            for _ in 0..len {
+                v.push(if x.is_zero() { gen_zero(r) } else { x });
+            }
+            (v, "flavour_all_equal")
+        }
+        11 => {
+            // first value 0, then anything (non-positive half of the time)
+            v.push(gen_zero(r));
+            let nonpos = r.chance(1, 2);
+            for _ in 1..len {
+                let d = Decimal::new(r.range(0, 500), 2);
+                v.push(if nonpos { -d } else if r.chance(1, 2) { -d } else { d });
+            }
+            (v, "flavour_first_zero")
+        }
+        _ => {
+            // strictly negative small values (a losses-only return dataset)
+            for _ in 0..len {
+                v.push(-Decimal::new(r.range(1, 9999), 4));
+            }
+            (v, "flavour_losses_only")
         }
     }
 }
@@ -476,7 +531,7 @@ fn table(em: &mut Emitter) {
         for act in [false, true] {
             for (hi, lo) in [(20, 20), (30, 10)] {
                 for x in [0, 10, 20, 30, 40] {
-                    for (mean, m) in [(0, 0), (20, 0), (18, 6)] {
+                    for (mean, m) in [(0, 0), (20, 0), (18, 6), (20, 6)] {
                         let st = St {
                             count: dec(count, 0),
                             sum: dec(mean * count, 1),
@@ -498,6 +553,31 @@ fn table(em: &mut Emitter) {
     for x in [-15, 0, 7] {
         emit_seq(em, "table", &[dec(x, 1)], &["singleton"]);
     }
+    // values landing exactly on the running mean after a non-zero spread, all-equal, all-zero,
+    // all-negative, first value zero: as sequences and in every arrival order
+    let named: [&[i64]; 14] = [
+        &[10, 30, 20],
+        &[-5, 15, 5],
+        &[100, 200, 300, 200, 200],
+        &[-40, 40, 0, 0, 0],
+        &[10, 20, 30],
+        &[0],
+        &[0, 0, 0],
+        &[50, 50, 50],
+        &[-425],
+        &[-3, -1, -2],
+        &[0, -10],
+        &[0, 10],
+        &[-7, -7],
+        &[10, 30, 20, 20, 20, 20],
+    ];
+    for l in named {
+        let v: Vec<Decimal> = l.iter().map(|x| dec(*x, 1)).collect();
+        emit_seq(em, "table", &v, &["named_dataset"]);
+        if v.len() <= 4 {
+            emit_perms(em, "table", &v);
+        }
+    }
 }
 
 fn main() {
@@ -511,7 +591,7 @@ fn main() {
             let (n_seq, max_len, n_long, n_perm, max_perm, n_adv) = if thorough {
                 (2000, 60, 30, 60, 6, 500)
             } else {
-                (260, 30, 2, 40, 4, 80)
+                (210, 30, 2, 40, 4, 60)
             };
             table(&mut em);
             for _ in 0..n_seq {
